@@ -1,5 +1,5 @@
 (* Pinned statements for C18: a changed statement or a new axiom fails the check. *)
-From SwimV Require Import Model.Route Proofs.RouteProofs Props.C18.
+From SwimV Require Import Model.Route Proofs.RouteProofs Proofs.RouteUriProofs Props.C18.
 Open Scope N_scope.
 Check (C18_decode_encode) : (forall s, bytes s -> pct_decode (pct_encode s) = s).
 Print Assumptions C18_decode_encode.
@@ -17,3 +17,11 @@ Check (C18_absolute_relative_disjoint) : (forall p q sc path r1 r2, segs_nonempt
 Print Assumptions C18_absolute_relative_disjoint.
 Check (C18_route_table_deterministic) : (forall (routes : list pattern) sc path, (forall p, In p routes -> segs_nonempty p) -> (forall p q, In p routes -> In q routes -> p <> q -> are_ambiguous p q = false) -> forall p q r1 r2, In p routes -> In q routes -> p <> q -> unapply_uri p sc path = Some r1 -> unapply_uri q sc path = Some r2 -> False).
 Print Assumptions C18_route_table_deterministic.
+Check (C18_applied_route_parses) : (forall p m parts, values_are_bytes m -> p_segs p <> [] -> Forall lit_ok (p_segs p) -> Forall (fun s => s_text s <> []) (p_segs p) -> render_all m (p_segs p) = Some parts -> let body := join true (p_abs p) parts in match p_scheme p with | Some sc => scheme_ok sc = true | None => uri_scheme body = None end -> parse_uri ((match p_scheme p with Some sc => sc ++ [COLON] | None => [] end) ++ body) = Some (p_scheme p, body)).
+Print Assumptions C18_applied_route_parses.
+Check (C18_apply_unapply) : (forall p m parts route, values_are_bytes m -> p_segs p <> [] -> Forall (fun s => ~ In SLASH (s_text s)) (p_segs p) -> Forall lit_ok (p_segs p) -> Forall (fun s => s_text s <> []) (p_segs p) -> render_all m (p_segs p) = Some parts -> match p_scheme p with | Some sc => scheme_ok sc = true | None => uri_scheme (join true (p_abs p) parts) = None end -> apply p m = inl route -> unapply_str p route = Some (bind_params m (p_segs p) [])).
+Print Assumptions C18_apply_unapply.
+Check (C18_absolute_has_no_scheme) : (forall parts, uri_scheme (join true true parts) = None).
+Print Assumptions C18_absolute_has_no_scheme.
+Check (C18_apply_unapply_witness) : (let p := {| p_text := []; p_scheme := Some [115; 119; 105; 109]; p_abs := true; p_segs := [{| s_param := false; s_start := 6; s_text := [117; 110; 105; 116] |}; {| s_param := true; s_start := 12; s_text := [105; 100] |}] |} in let m := [([105; 100], [97; 32; 98])] in apply p m = inl [115; 119; 105; 109; 58; 47; 117; 110; 105; 116; 47; 97; 37; 50; 48; 98] /\ unapply_str p [115; 119; 105; 109; 58; 47; 117; 110; 105; 116; 47; 97; 37; 50; 48; 98] = Some m).
+Print Assumptions C18_apply_unapply_witness.
